@@ -151,6 +151,34 @@ def deductive(res, agg):
         else:
             agg.vc(fn, "within-supported-subset", {"status": "undecided", "residue": f"{type(pth.exc).__name__}: {pth.exc} {pth.tb[-2:]}"}, "")
 
+    # ---- the real preprocessing chain on structural proxies: new data lacking / renaming a fitted feature dimension never gets through
+    from vf.contracts.prep import trace_chain
+    from vf.sym.ldom import mk_input
+    fnc = "Preprocessor.transform (in the real chain)"
+    for center in (True, False):
+        for std in (False, True):
+            for what, mk in (("lacks a fitted feature dimension", lambda: mk_input("Xnew", ("time",), ("lat",))),
+                             ("has a fitted feature dimension renamed", lambda: mk_input("Xnew", ("time",), ("lat", "longitude_x")))):
+                cfg = f"center={center},standardize={std}"
+                try:
+                    paths = trace_chain(with_center=center, with_std=std, newdata=mk, check_nans=False, maxpaths=64)
+                except PathLimit as e:
+                    res.undecided_reasons.append(f"{fnc}[{cfg}]: {e}")
+                    continue
+                res.paths += len(paths)
+                nraise = 0
+                for pth in paths:
+                    if pth.kind == "unsupported":
+                        agg.vc(fnc, "within-supported-subset", {"status": "undecided", "residue": f"{pth.exc} {pth.tb[-3:]}"}, cfg)
+                    elif pth.kind == "return":
+                        agg.vc(fnc, f"transform data that {what} is refused (whatever preprocessing options were fitted)", struct_vc(False, "transform returned " + repr(pth.value.get("new2D"))[:150]), cfg)
+                    else:
+                        nraise += 1
+                        ok = isinstance(pth.exc, (ValueError, KeyError, TypeError))
+                        agg.vc(fnc, f"transform data that {what} is refused (whatever preprocessing options were fitted)", struct_vc(ok, f"{type(pth.exc).__name__}: {pth.exc}"), cfg)
+                if not nraise:
+                    agg.vc(fnc, "has a refusing path", struct_vc(False, "vacuity guard"), cfg + "," + what)
+
     # ---- cross-covariance kernel: sample counts
     fn = "CPCCA._compute_cross_covariance_numpy"
     n2 = named_ext("n2")
@@ -250,6 +278,10 @@ def eval_case(c):
     extra = {"ExtendedEOF": dict(tau=1, embedding=2), "OPA": dict(tau_max=2, n_pca_modes=4), "POP": dict(n_pca_modes=4),
              "CPCCA": dict(alpha=0.5, use_pca=False), "MCA": dict(use_pca=False), "CCA": dict(use_pca=False), "RDA": dict(use_pca=False)}.get(model, {})
     kw = dict(n_modes=2, **extra)
+    if c.get("prep") == "nocenter" and not cross:
+        kw["center"] = False            # no statistic is stored: only the (default) weights carry the fitted dims
+    elif c.get("prep") == "std":
+        kw["standardize"] = True
     Y = (da.isel(lon=slice(0, 3)) * 0.5 + 0.1 * rng.standard_normal(da.isel(lon=slice(0, 3)).shape)).rename({"lat": "lat2", "lon": "lon2"})
 
     def fit(m, X=inp, dim="time", Yv=None):
@@ -380,6 +412,11 @@ def bounded_cases(tier, seed):
             for fault in FAULTS:
                 if applicable(model, fault, inp):
                     cases.append(dict(model=model, input=inp, fault=fault))
+    for inp in ("da", "ds", "list"):
+        for prep in ("nocenter", "std"):
+            for fault in FAULTS:
+                if fault.startswith("transform-") and applicable("EOF", fault, inp):
+                    cases.append(dict(model="EOF", input=inp, fault=fault, prep=prep))
     for i, c in enumerate(cases):
         c["seed"] = int(seed) * 1000 + i
     if tier == "quick":
@@ -392,6 +429,8 @@ def bounded_cases(tier, seed):
 def run_bounded(res, tier, seed):
     for c in bounded_cases(tier, seed):
         sig = {k: c[k] for k in ("model", "input", "fault")}
+        if c.get("prep"):
+            sig["prep"] = c["prep"]
         try:
             ok, detail = eval_case(c)
         except Exception as e:  # noqa: BLE001
